@@ -330,6 +330,7 @@ fn enum_base() -> Scenario {
         cap_ms: 40_000,
         strays: vec![],
         stateless_reset: false,
+        rebinds: vec![],
     }
 }
 
